@@ -111,6 +111,10 @@ def check(ctx):
     thorough = ctx.tier == 'thorough'
     rows = R.run_kind(ctx, 'share')
     R.compare(ctx, rows, proj_all, 'C11 Share: traces, upstream counters, drops', oracle=oracle_share, nontrivial=nontrivial_share)
+    # a subscriber that subscribes again from inside its terminal callback (retry / repeat style consumers), with the reset
+    # flag of that terminal set: the newcomer gets a fresh execution (modelled as the sequence terminal, S)
+    rows = R.run_kind(ctx, 'sharet', shards=4)
+    R.compare(ctx, rows, proj_all, 'C11 Share: re-subscription from inside the terminal callback (fresh execution as the reset options say)', oracle=oracle_share, nontrivial=nontrivial_share)
     rows = R.run_kind(ctx, 'conn')
     R.compare(ctx, rows, proj_all, 'C11 connectable: traces, upstream counters, Connect results', oracle=oracle_conn, nontrivial=nontrivial_share)
     # concurrent variant: search only (the model side is the constant `inv=- nd=0 ti=0`)
@@ -133,13 +137,13 @@ def check(ctx):
     return dict(
         rule='share: every event sequence of length <= 5 (quick) / 7 (thorough) over {S, U0..U2, N, E, C} with U only naming existing subscribers x 8 flag sets x '
              '{publish, behavior, replay1, replay2} (+ replay0, replayU in thorough) over a hot probe; the same to length 4 / 5 x 11 synchronous prefix lists; the aliases Share, ShareReplay, '
-             'ShareReplayWithConfig; seeded longer sequences (<= 6 subscribers, 7 connectors). conn: every sequence of length <= 5 / 7 over {S, U0, U1, N, E, C, K, D} x 3 connectors x '
+             'ShareReplayWithConfig; seeded longer sequences (<= 6 subscribers, 7 connectors). sharet: every prefix over {S,U,N} of length <= 3 / 4 x terminal C / E with subscriber k re-subscribing inside its terminal callback x 8 tails x the flag sets that reset on that terminal x {publish, replay1, behavior}. conn: every sequence of length <= 5 / 7 over {S, U0, U1, N, E, C, K, D} x 3 connectors x '
              'ResetOnDisconnect, synchronous prefixes, seeded. Compared: ALL result fields (every trace, live/total after each event, same-subscription flags, drops, unhandled, escaped). '
              'Oracles on the implementation alone: live <= 1 after every event, grammar of every trace, no escaped panic / unhandled error, nil dereference only in the known class, '
              'no upstream subscription and no flow before Connect. non-trivial = has a subscriber and a source notification.',
         assumptions=[
             'sequential semantics: each event is processed to quiescence before the next (interleavings inside one event are searched by the concurrent variant, not proved)',
-            'observer callbacks do not call back into the same shared observable (re-entrancy excluded from generated sequences)',
+            'observer callbacks do not call back into the same shared observable, except kind=sharet: a subscription issued from inside the terminal callback when that terminal resets the generation, modelled by its sequential equivalent (terminal, then S) and checked case by case',
             'contexts are not part of this model (C09)',
             'the probe source is well behaved: it does not emit to a subscription it has ended or that was torn down',
         ],
